@@ -21,6 +21,9 @@ for f in sorted(os.listdir(os.path.join(ROOT, 'benign'))):
             bad += p.returncode == 1
     finally:
         subprocess.run(['git', '-C', '/repo', 'checkout', '--', '.'])
+# the evidence files were rewritten by runs on a CHANGED tree: restore them from the unchanged tree
+for _pid in sorted({'C04', 'C05', 'C07', 'C19'}):
+    subprocess.run([os.path.join(ROOT, 'check'), _pid], cwd=ROOT, capture_output=True, text=True)
 for r in rows:
     print(r[0], '->', r[1])
 json.dump(rows, open(os.path.join(ROOT, 'benign', 'last_result.json'), 'w'), indent=1)
